@@ -282,8 +282,8 @@ MUTANTS = [
     dict(id="C20-M4", file=_F, old="        fft = torch.fft.rfftn(points, dim=self.fourier_dims)", new="        fft = torch.fft.rfftn(points, dim=self.fourier_dims, norm=\"forward\")", rule="R-C20-3", what="norm on one side only"),
     dict(id="C20-M5", file=_F, old="        if self.skip_connection:\n            ifft += points", new="        if self.skip_connection:\n            points += ifft\n            ifft = points", rule="R-C20-1", what="skip connection accumulates into the input"),
     dict(id="C20-M6", file=_F, old="        fft *= self.fourier_kernel", new="        fft = fft * self.fourier_kernel + fft", rule="R-C20-2", what="spectrum added to itself"),
-    dict(id="C20-M7", file=_F, old="        self.fourier_dims = list(range(1, self.data_dim + 1))", new="        self.fourier_dims = list(range(0, self.data_dim))", rule="R-C20-3", what="batch axis transformed"),
-    dict(id="C20-M8", file=_F, old="        padding[3::2] = torch.flip(\n            (self.mode_num - original_fft_shape), dims=(0,)\n        )", new="        padding[3::2] = torch.flip(\n            (self.mode_num - original_fft_shape - 1), dims=(0,)\n        )", rule="R-C20-2", what="one resolved mode dropped"),
+    dict(id="C20-M7", file=_F, old="        self.fourier_dims = list(range(1, self.data_dim+1))", new="        self.fourier_dims = list(range(0, self.data_dim))", rule="R-C20-3", what="batch axis transformed"),
+    dict(id="C20-M8", file=_F, old="        padding[3::2] = torch.flip((self.mode_num - original_fft_shape), dims=(0,))", new="        padding[3::2] = torch.flip((self.mode_num - original_fft_shape - 1), dims=(0,))", rule="R-C20-2", what="one resolved mode dropped"),
 ]
 TWINS = [
     dict(id="C20-T1", file=_F, old="        fft *= self.fourier_kernel", new="        fft = torch.mul(fft, self.fourier_kernel)", what="torch.mul, out of place"),
